@@ -1,6 +1,6 @@
 use crate::net::EventLoops;
 use libc::{fd_set, timeval};
-use std::ffi::{c_int, c_uint};
+use std::ffi::c_int;
 use std::time::Duration;
 
 trait SelectSyscall {
@@ -55,14 +55,19 @@ impl<I: SelectSyscall> SelectSyscall for NioSelectSyscall<I> {
         errorfds: *mut fd_set,
         timeout: *mut timeval,
     ) -> c_int {
+        // milliseconds (rounded up), `u64::MAX` means no timeout
         let mut t = if timeout.is_null() {
-            c_uint::MAX
+            u64::MAX
         } else {
-            unsafe {
-                c_uint::try_from((*timeout).tv_sec).expect("overflow")
-                    .saturating_mul(1_000_000)
-                    .saturating_add(c_uint::try_from((*timeout).tv_usec).expect("overflow"))
+            let tv = unsafe { *timeout };
+            if tv.tv_sec < 0 || tv.tv_usec < 0 {
+                crate::syscall::set_errno(libc::EINVAL);
+                return -1;
             }
+            u64::try_from(tv.tv_sec)
+                .unwrap_or(u64::MAX)
+                .saturating_mul(1_000)
+                .saturating_add(u64::try_from(tv.tv_usec).unwrap_or(u64::MAX).div_ceil(1_000))
         };
         let mut o = timeval {
             tv_sec: 0,
@@ -78,7 +83,7 @@ impl<I: SelectSyscall> SelectSyscall for NioSelectSyscall<I> {
         if !errorfds.is_null() {
             s[2] = unsafe { *errorfds };
         }
-        let mut x = 1;
+        let mut x: u64 = 1;
         let mut r;
         // just check select every x ms
         loop {
@@ -88,8 +93,8 @@ impl<I: SelectSyscall> SelectSyscall for NioSelectSyscall<I> {
             if r != 0 || t == 0 {
                 break;
             }
-            _ = EventLoops::wait_event(Some(Duration::from_millis(u64::from(t.min(x)))));
-            if t != c_uint::MAX {
+            _ = EventLoops::wait_event(Some(Duration::from_millis(t.min(x))));
+            if t != u64::MAX {
                 t = t.saturating_sub(x);
             }
             if x < 16 {
